@@ -134,6 +134,109 @@ def rule_ctor(run):
     run.end()
 
 
+class _QualModel:
+    """model of the _qualifier_ argument: Q(x) and Q[T](x) keep the value; anything else is a call-shape error"""
+
+    def __call__(self, *args, **kwargs):
+        if len(args) != 1 or kwargs:
+            raise Reject(f"qualifier called with {len(args)} positional arguments (expected Q(x) or Q[T](x))")
+        return args[0]
+
+    def __getitem__(self, t):
+        def make(x=None):
+            if isinstance(x, Raw) and isinstance(t, TypeTok) and "width" in t.params:
+                w = t.params["width"]
+                if x.kind == t.name and x.width <= w or (x.kind == "Unsigned" and t.name == "Signed" and x.width < w):
+                    return Raw(w, x.weight, t.name)
+                raise Reject(f"{t} constructed from {x}")
+            return x
+        return make
+
+
+def rule_ctor_abs(run):
+    run.begin(
+        "C19.ctor-abs",
+        "constructors interpreted over the (width, LSB-weight) domain: from an integer vector the value is padded with -right "
+        "zeros (right must be <= 0) and from another format with source.right - target.right zeros (target must contain the "
+        "source); the stored raw value has the target's width and LSB weight; everything else is rejected",
+        floor=100,
+    )
+    mod = run.idx.mod(FX)
+    fmts = [(l, r) for l in range(-1, 4) for r in range(-3, l + 1)]
+    for kind, rawkind in (("SFixed", "Signed"), ("UFixed", "Unsigned")):
+        f = mod.func(f"{kind}.__init__")
+
+        def prims_for():
+            p = shape.base_prims()
+            p["Signed"] = shape._VecType("Signed")
+            p["Unsigned"] = shape._VecType("Unsigned")
+            marker = TypeTok(kind)
+            p[kind] = marker
+            other = "UFixed" if kind == "SFixed" else "SFixed"
+            p[other] = TypeTok(other)
+            p["Null"] = object()
+            p["Full"] = object()
+            p["static_assert"] = lambda c, *a, **k: (_ for _ in ()).throw(Reject("static_assert")) if not c else None
+
+            def inst(x, t):
+                ts = t if isinstance(t, tuple) else (t,)
+                for k in ts:
+                    n = getattr(k, "name", None)
+                    if isinstance(x, Raw) and n == x.kind and "width" not in getattr(k, "params", {}):
+                        return True
+                    if isinstance(x, Raw) and n == x.kind and k.params.get("width") == x.width:
+                        return True
+                    if isinstance(x, dict) and x.get("_kind") == n:
+                        return True
+                return False
+            p["instance_check"] = inst
+            p["isinstance"] = inst
+            return p
+
+        for (l, r) in fmts:
+            w = l - r + 1
+            # integer vectors
+            for vk in ("Signed", "Unsigned"):
+                if kind == "UFixed" and vk == "Signed":
+                    continue
+                for wv in (1, 2, 3):
+                    self_m = {"_width": w, "_exp": r, "left": (lambda l=l: l), "right": (lambda r=r: r), "_kind": kind}
+                    val = Raw(wv, 0, vk)
+                    detail = f"{kind}[{l}:{r}]({vk}[{wv}])"
+                    room = w if vk == rawkind else w - 1
+                    expect_ok = r <= 0 and wv + (-r) <= room
+                    try:
+                        Interp(mod, prims_for()).call_function(f"{kind}.__init__", self_m, val, _qualifier_=_QualModel())
+                        got = self_m.get("_val")
+                        ok = expect_ok and isinstance(got, Raw) and got.width == w and got.weight == r
+                        found = repr(got)
+                    except Reject as rj:
+                        ok = not expect_ok
+                        found = f"rejected: {rj}"
+                    run.ob(ok, f"{kind}.__init__", file=mod.rel, line=f.node.lineno, detail=detail,
+                           expected=(f"{rawkind}[{w}] with LSB weight 2^{r}" if expect_ok else "rejected (not representable in this format)"), found=found, sample=(detail in ("SFixed[3:-2](Signed[3])", "UFixed[3:1](Unsigned[2])")))
+            # other formats of the same class
+            for (l2, r2) in fmts:
+                if abs(l2 - l) > 2 or abs(r2 - r) > 2:
+                    continue
+                w2 = l2 - r2 + 1
+                self_m = {"_width": w, "_exp": r, "left": (lambda l=l: l), "right": (lambda r=r: r), "_kind": kind}
+                val = {"_kind": kind, "_val": Raw(w2, r2, rawkind), "left": (lambda l2=l2: l2), "right": (lambda r2=r2: r2), "_width": w2, "_exp": r2}
+                detail = f"{kind}[{l}:{r}]({kind}[{l2}:{r2}])"
+                expect_ok = l >= l2 and r <= r2
+                try:
+                    Interp(mod, prims_for()).call_function(f"{kind}.__init__", self_m, val, _qualifier_=_QualModel())
+                    got = self_m.get("_val")
+                    ok = expect_ok and isinstance(got, Raw) and got.width == w and got.weight == r
+                    found = repr(got)
+                except Reject as rj:
+                    ok = not expect_ok
+                    found = f"rejected: {rj}"
+                run.ob(ok, f"{kind}.__init__", file=mod.rel, line=f.node.lineno, detail=detail,
+                       expected=(f"{rawkind}[{w}] with LSB weight 2^{r}" if expect_ok else "rejected (target does not contain the source format)"), found=found, sample=(detail == "SFixed[3:-3](SFixed[2:-1])"))
+    run.end()
+
+
 def _round_blocks(fn):
     """the `if cutoff == 1: do_round = .. else: do_round = ..` statements of a function"""
     out = []
@@ -222,7 +325,7 @@ def rule_siblings(run):
     sib.run_rule(run, "F-SIB.fixed", FIXED_PAIRS, floor=12)
 
 
-RULES = [rule_format, rule_ctor, rule_round, rule_sat, rule_siblings]
+RULES = [rule_format, rule_ctor, rule_ctor_abs, rule_round, rule_sat, rule_siblings]
 LEVEL = "other"
 EXPLANATION = (
     "Fixed-point exactness is decided for the format algebra: + - * of both classes are interpreted abstractly over a "
